@@ -175,6 +175,7 @@ func init() {
 		Explanation: "Decides one clause only, 'terminates with a result for any sequence of items' in its no-panic part: every index of the caller-supplied item slice in Linebreak and the linebreaker methods is dominated by a bound check or is an index parameter whose bound is established at every call site (interprocedural index contract), and no explicit panic is reachable from Linebreak. NOT decided: legality of breakpoints, feasibility, optimality, relaxation of the tolerance, termination.",
 		Assumptions: []string{"lb.items[active.Position] (a position stored earlier from a checked index) is listed as unclassified, not decided"},
 		Run: func(c *core.Ctx, r *core.Report) {
+			E4DeactivationWithoutPenaltyWidth(c, r)
 			E11BreakWidth(c, r)
 			E4FlaggedPairRealBreak(c, r)
 			E4ListLinks(c, r)
@@ -514,6 +515,7 @@ func init() {
 		Title:       "Text layout places every character once, inside the box, on ordered lines",
 		Explanation: "Decides two structural clauses. (1) the structural part of 'lines are stacked monotonically by their line heights … Text.Bounds/Heights enclose all spans': a line's top/ascent/descent/bottom are pure component-wise math.Max folds over its spans (each accumulator folded with the same-named component of FontFace.heights(), inline objects' ascent/descent feeding the right pair), and Text.Heights combines the first line's ascent with the last line's descent. (2) a necessary condition of 'right-aligned lines end at the width, centred lines are centred, no line extends beyond the box unless Overflows is reported': the width the line breaker records for a feasible break includes the width of the penalty (the hyphen shown at the break), by the same guarded addition the fitting computation uses. NOT decided: everything else — that every character appears exactly once and in order, glyph/byte index bookkeeping, glue stretching, alignment, bidi reordering, Overflows, which are arithmetic over runtime arrays with no structural clause. Also runs the structural rules on Linebreak (registered for C17): the lines of a text box are those Linebreak chooses.",
 		Run: func(c *core.Ctx, r *core.Report) {
+			E4DeactivationWithoutPenaltyWidth(c, r)
 			E4ListLinks(c, r)
 			E11IndentOnEveryPath(c, r)
 			E11ObjectOwnItem(c, r)
